@@ -208,47 +208,64 @@ Proof.
   destruct (bool_decide (y ∈ l)); cbn; intuition.
 Qed.
 
-Theorem diff_same_empty a : diff a a = [].
+Lemma diff_listeners_common_self k m : diff_listeners_common k m m = [].
 Proof.
-  unfold diff.
-  unfold diff_listeners_removed, diff_listeners_added, diff_late_activate. rewrite !keys_not_in_self. cbn [flat_map app].
-  assert (Hcommon : forall k m, diff_listeners_common k m m = []).
-  { intros k m. unfold diff_listeners_common. apply flat_map_nil. intros [ad l] Hin. cbn [fst snd].
-    rewrite (In_map_to_list _ _ _ Hin). rewrite bool_decide_eq_true_2 by reflexivity.
-    destruct (l_active l); reflexivity. }
-  rewrite !Hcommon. cbn [app].
-  assert (Hcl : diff_clusters (clusters a) (clusters a) = []).
-  { unfold diff_clusters. rewrite dm_self; [reflexivity|apply N.compare_refl|].
-    intros v. apply bool_decide_eq_true_2. reflexivity. }
-  rewrite Hcl. cbn [app].
-  assert (Hb : diff_backends (backends a) (backends a) = []).
-  { unfold diff_backends. rewrite dm_self; [reflexivity|apply N3_cmp_refl|].
-    intros v. apply bool_decide_eq_true_2. reflexivity. }
-  rewrite Hb. cbn [app].
-  assert (Hf : forall tls m, diff_fronts tls m m = []).
-  { intros tls m. unfold diff_fronts.
-    assert (Hall : forall kf : fkey * front, In kf (map_to_list m) ->
-                                             negb (bool_decide (m !! fst kf = Some (snd kf))) = false).
-    { intros [k f] Hin. cbn [fst snd]. rewrite (In_map_to_list _ _ _ Hin).
-      rewrite bool_decide_eq_true_2 by reflexivity. reflexivity. }
-    rewrite !lfilter_nil by exact Hall. reflexivity. }
-  rewrite !Hf. cbn [app].
-  assert (Ht : forall udp m, diff_tfronts udp m m = []).
-  { intros udp m. unfold diff_tfronts.
-    assert (Hall : forall ct, In ct (dedup_t (tfront_pairs m)) -> negb (has_tfront m ct) = false).
-    { intros [c t] Hin. apply dedup_t_In in Hin. unfold tfront_pairs in Hin.
-      apply in_flat_map in Hin as [[c' l] [Hcl' Hin]]. cbn [fst snd] in Hin.
-      apply in_map_iff in Hin as [t' [E Ht']]. inversion E; subst.
-      unfold has_tfront. cbn [fst snd]. rewrite (In_map_to_list _ _ _ Hcl').
-      rewrite bool_decide_eq_true_2; [reflexivity|]. apply elem_of_list_In. exact Ht'. }
-    rewrite !lfilter_nil by exact Hall. reflexivity. }
-  rewrite !Ht. cbn [app].
+  unfold diff_listeners_common. apply flat_map_nil. intros [ad l] Hin. cbn [fst snd].
+  rewrite (In_map_to_list _ _ _ Hin). rewrite bool_decide_eq_true_2 by reflexivity.
+  destruct (l_active l); reflexivity.
+Qed.
+Lemma diff_listeners_removed_self k m : diff_listeners_removed k m m = [].
+Proof. unfold diff_listeners_removed. rewrite keys_not_in_self. reflexivity. Qed.
+Lemma diff_listeners_added_self k m : diff_listeners_added k m m = [].
+Proof. unfold diff_listeners_added. rewrite keys_not_in_self. reflexivity. Qed.
+Lemma diff_late_activate_self k m : diff_late_activate k m m = [].
+Proof. unfold diff_late_activate. rewrite keys_not_in_self. reflexivity. Qed.
+Lemma diff_clusters_self m : diff_clusters m m = [].
+Proof.
+  unfold diff_clusters. rewrite dm_self; [reflexivity|apply N.compare_refl|].
+  intros v. apply bool_decide_eq_true_2. reflexivity.
+Qed.
+Lemma diff_backends_self m : diff_backends m m = [].
+Proof.
+  unfold diff_backends. rewrite dm_self; [reflexivity|apply N3_cmp_refl|].
+  intros v. apply bool_decide_eq_true_2. reflexivity.
+Qed.
+Lemma diff_fronts_self tls m : diff_fronts tls m m = [].
+Proof.
+  unfold diff_fronts.
+  assert (Hall : forall kf : fkey * front, In kf (map_to_list m) ->
+                                           negb (bool_decide (m !! fst kf = Some (snd kf))) = false).
+  { intros [k f] Hin. cbn [fst snd]. rewrite (In_map_to_list _ _ _ Hin).
+    rewrite bool_decide_eq_true_2 by reflexivity. reflexivity. }
+  rewrite !lfilter_nil by exact Hall. reflexivity.
+Qed.
+Lemma diff_tfronts_self udp m : diff_tfronts udp m m = [].
+Proof.
+  unfold diff_tfronts.
+  assert (Hall : forall ct, In ct (dedup_t (tfront_pairs m)) -> negb (has_tfront m ct) = false).
+  { intros [c t] Hin. apply dedup_t_In in Hin. unfold tfront_pairs in Hin.
+    apply in_flat_map in Hin as [[c' l] [Hcl' Hin]]. cbn [fst snd] in Hin.
+    apply in_map_iff in Hin as [t' [E Ht']]. inversion E; subst.
+    unfold has_tfront. cbn [fst snd]. rewrite (In_map_to_list _ _ _ Hcl').
+    rewrite bool_decide_eq_true_2; [reflexivity|]. apply elem_of_list_In. exact Ht'. }
+  rewrite !lfilter_nil by exact Hall. reflexivity.
+Qed.
+Lemma diff_certs_self m : diff_certs m m = [].
+Proof.
   unfold diff_certs.
-  assert (Hall : forall x, In x (cert_keys (certs a)) -> negb (has_cert (certs a) (fst x) (fst (snd x)) (snd (snd x))) = false).
+  assert (Hall : forall x, In x (cert_keys m) -> negb (has_cert m (fst x) (fst (snd x)) (snd (snd x))) = false).
   { intros [ad [fp k]] Hin. unfold cert_keys in Hin.
     apply in_flat_map in Hin as [[ad' b] [Hb' Hin]]. cbn [fst snd] in Hin.
     apply in_map_iff in Hin as [[fp' k'] [E Hk]]. inversion E; subst.
     unfold has_cert. cbn [fst snd]. rewrite (In_map_to_list _ _ _ Hb').
     rewrite bool_decide_eq_true_2; [reflexivity|]. apply (In_map_to_list _ _ _ Hk). }
   rewrite !lfilter_nil by exact Hall. reflexivity.
+Qed.
+
+Theorem diff_same_empty a : diff a a = [].
+Proof.
+  unfold diff.
+  rewrite !diff_listeners_removed_self, !diff_listeners_added_self, !diff_listeners_common_self, !diff_late_activate_self,
+    diff_clusters_self, diff_backends_self, !diff_fronts_self, !diff_tfronts_self, diff_certs_self.
+  reflexivity.
 Qed.
